@@ -1999,6 +1999,24 @@ func (f *fnTrans) loopExitAnchors(b *ssa.BasicBlock) {
 				if len(b.Instrs) > 0 {
 					pos = b.Instrs[0].Pos()
 				}
+				// the exit block may be shared with other edges (an outer loop's `continue` target):
+				// the loop's own variables are then not in scope in b, and b's merged state is not the
+				// state on this edge. Evaluate on the edge: header's out-state, header's names, guarded
+				// by the exit condition.
+				fwd := 0
+				for _, p := range b.Preds {
+					if !f.back[[2]int{p.Index, b.Index}] {
+						fwd++
+					}
+				}
+				if st, ok := f.out[hdr]; ok && fwd > 1 {
+					saveB, saveCur, saveAt := f.curB, f.cur, f.at[hdr]
+					f.curB, f.cur = hdr, st.Clone()
+					f.at[hdr] = And(saveAt, f.edgeCond(hdr, b))
+					f.evalAt(fmt.Sprintf("loopexit#%d", li.ord), pos, nil)
+					f.curB, f.cur, f.at[hdr] = saveB, saveCur, saveAt
+					continue
+				}
 				f.evalAt(fmt.Sprintf("loopexit#%d", li.ord), pos, nil)
 			}
 		}
